@@ -6,7 +6,7 @@ REPLAY = dict(src='replay/c27_replay.cpp', cxxflags=['-DNDEBUG', '-I/repo/tests/
               repo_sources=['tests/test_tools/test_radio.cpp', 'tests/test_tools/test_servers.cpp', 'tests/test_tools/hexdump.cpp', 'tests/test_tools/buffer_io.cpp', 'tests/test_tools/address_io.cpp',
                             'bluetoe/link_layer/delta_time.cpp', 'bluetoe/link_layer/channel_map.cpp', 'bluetoe/link_layer/connection_details.cpp', 'bluetoe/utility/address.cpp'])
 UNITS = [llc.unit('C27_CLAUSES', enforce=['handle_ll_control_data'], replay=REPLAY),
-         lle.unit(['ll_timeout', 'll_end_event', 'transmit_pending_control_pdus', 'valid_phy_encoding', 'handle_phy_request', 'no_phy_handle_phy_request', 'adv_received', 'll_phy_update_request', 'll_remote_versions_request', 'll_initiating_connection_parameter_request'], replay=REPLAY),
+         lle.unit(['ll_timeout', 'll_end_event', 'transmit_pending_control_pdus', 'valid_phy_encoding', 'handle_phy_request', 'no_phy_handle_phy_request', 'adv_received', 'll_phy_update_request', 'll_remote_versions_request', 'll_initiating_connection_parameter_request'], replay=REPLAY, defines=['C27_CLAUSES']),
          C27cpr.UNIT]
 META = dict(
     level='other',
